@@ -306,6 +306,27 @@ func (w *vfWork) openOrWait(side int, sid uint16, opener bool) *Stream {
 	return w.reg[side].wait(sid, w.stopCh())
 }
 
+// openAfter waits up to d for the stream to be accepted, then opens it locally (both ends of a
+// WebRTC data channel know the identifier and may call OpenStream).
+func (w *vfWork) openAfter(side int, sid uint16, d time.Duration) *Stream {
+	st, ch := w.reg[side].get(sid)
+	if st != nil {
+		return st
+	}
+	t := time.NewTimer(d)
+	select {
+	case <-ch:
+		t.Stop()
+	case <-t.C:
+	case <-w.stopCh():
+		t.Stop()
+
+		return nil
+	}
+
+	return w.openOrWait(side, sid, true)
+}
+
 // who opens stream sid: the side that writes first on it. If both directions
 // are configured on the same sid, direction 0's writer (side A) opens.
 func (w *vfWork) opener(sid uint16) int {
@@ -323,7 +344,12 @@ func (w *vfWork) writer(run *vfStreamRun) {
 	s := w.sim
 	side := run.wside
 	a := s.getAssoc(side)
-	st := w.openOrWait(side, run.cfg.SID, w.opener(run.cfg.SID) == side)
+	var st *Stream
+	if w.opener(run.cfg.SID) == side {
+		st = w.openOrWait(side, run.cfg.SID, true)
+	} else {
+		st = w.openAfter(side, run.cfg.SID, 2*time.Second)
+	}
 	if st == nil {
 		return
 	}
@@ -345,9 +371,16 @@ func (w *vfWork) writer(run *vfStreamRun) {
 			ppi = 50
 		}
 		msg := vfMakeMsg(run.key, i, size)
+		unord, relT, relV := run.cfg.Unordered, run.cfg.RelType, run.cfg.RelVal
+		if run.cfg.Mix {
+			// ordered and unordered messages share the stream; the reliability policy stays the stream's
+			// (it is evaluated at transmission time, so it is a property of the stream, not of a message)
+			unord = rnd.Intn(2) == 0
+			st.SetReliabilityParams(unord, relT, relV)
+		}
 		rec := vfWriteRec{
-			Idx: i, Size: size, PPI: ppi, Hash: vfMsgHash(ppi, msg), Unordered: run.cfg.Unordered,
-			RelType: run.cfg.RelType, RelVal: run.cfg.RelVal, DCEP: dcep,
+			Idx: i, Size: size, PPI: ppi, Hash: vfMsgHash(ppi, msg), Unordered: unord,
+			RelType: relT, RelVal: relV, DCEP: dcep,
 		}
 		ev := s.apiCall(side, "write", run.cfg.SID)
 		ev.Idx, ev.PPI, ev.Hash = i, ppi, rec.Hash
@@ -397,6 +430,18 @@ func (w *vfWork) reader(run *vfStreamRun) {
 	run.mu.Lock()
 	run.rStream = st
 	run.mu.Unlock()
+	if run.cfg.RecvCfg {
+		// only when this side does not itself write on the stream (the parameters describe sending)
+		shared := false
+		for _, o := range w.runs {
+			if o.cfg.SID == run.cfg.SID && o.wside == side {
+				shared = true
+			}
+		}
+		if !shared {
+			st.SetReliabilityParams(run.cfg.Unordered, run.cfg.RelType, run.cfg.RelVal)
+		}
+	}
 	buf := make([]byte, w.maxBuf)
 	rnd := vfNewRand(vfHash(run.key, 0x99))
 	mode := run.cfg.Reader
@@ -517,7 +562,7 @@ func (w *vfWork) waitDrained(limit time.Duration) bool {
 	for w.sim.net.now() < deadline {
 		if w.allReliableDelivered() {
 			w.sim.quiesce()
-			if a, b := w.buffered(); a == 0 && b == 0 && w.allReliableDelivered() {
+			if a, b := w.buffered(); a == 0 && b == 0 && w.allReliableDelivered() && w.readersIdle() {
 				return true
 			}
 		}
@@ -528,6 +573,26 @@ func (w *vfWork) waitDrained(limit time.Duration) bool {
 	}
 
 	return false
+}
+
+// readersIdle: no stream holds a complete, readable message that its reader has not fetched yet.
+func (w *vfWork) readersIdle() bool {
+	for _, r := range w.runs {
+		r.mu.Lock()
+		rs := r.rStream
+		r.mu.Unlock()
+		if rs == nil {
+			continue
+		}
+		rs.lock.RLock()
+		readable := rs.reassemblyQueue.isReadable()
+		rs.lock.RUnlock()
+		if readable {
+			return false
+		}
+	}
+
+	return true
 }
 
 func (w *vfWork) resumeReaders() {
@@ -632,7 +697,7 @@ func vfCheckDelivery(res *vfRes, prop string, run *vfStreamRun, final bool) vfDe
 			}
 			lastOrderedIdx = idx
 		}
-		if reliable && !run.cfg.Unordered {
+		if reliable && !run.cfg.Unordered && !run.cfg.Mix {
 			// skip rejected writes
 			for pos < len(writes) && !writes[pos].Accepted {
 				pos++
@@ -656,14 +721,12 @@ func vfCheckDelivery(res *vfRes, prop string, run *vfStreamRun, final bool) vfDe
 			if !wr.Accepted || delivered[i] > 0 {
 				continue
 			}
-			if reliable || wr.DCEP {
+			if reliable || wr.DCEP || wr.RelType == ReliabilityTypeReliable {
 				// loss evidence: a later message of the same stream was delivered (ordered), or run is final
 				key := "deliver/missing"
-				if wr.DCEP && !reliable {
-					key = "dcep/missing"
-				}
 				p := prop
 				if wr.DCEP && !reliable {
+					key = "dcep/missing"
 					p = "C06"
 				}
 				res.violate(p, key, "%s: accepted message idx=%d (len %d, ppi %d) was never delivered (%d of %d delivered)", tag, i, wr.Size, wr.PPI, st.Delivered, st.Accepted)
